@@ -328,7 +328,7 @@ def check(run: Run, prog: Program, cy: CyProgram, sites):
     g3(run, prog)
     n = report_sites(run, "G4", sites, lambda s: s.kernel.name in (
         "_calculate_angular_distance", "_calculate_euclidean_distance"))
-    run.floor("G4 call sites", n, 2)
+    run.floor("G4 call sites", n, 1)
     from .rules_c06 import p1_restricted
     p1_restricted(run, "G5", prog,
                   lambda o: ("Grid." in o or "GeoGrid." in o) and
